@@ -6,7 +6,9 @@ RULE = ("texts = corpus + MCTomlGen texts (multi-byte characters, BOM, CRLF, dec
         "re-parse of the slice for keys and values, bounds / character boundaries / containment for tables; Spanned<T> through "
         "serde for ten target types (same verdict and value as T, same ranges); no span after into_mut / DocumentMut. "
         "distinct_nontrivial = distinct texts of >= 3 code points")
-WANT = {"span-spanned-spanless-table", "span-docmut-verdict", "span-docmut-value", "span-panic", "span-tree", "span-stale", "span-spanned-verdict", "span-spanned-value", "span-spanned-range"}
+WANT = {"span-spanned-spanless-table", "span-docmut-verdict", "span-docmut-value", "span-panic", "span-tree", "span-stale", "span-spanned-verdict", "span-spanned-value", "span-spanned-range",
+        # error locations delivered through serde are spans too (shared with C15)
+        "err-type-location"}
 
 
 def run(ctx):
